@@ -37,6 +37,7 @@ type Engine struct {
 	driftMu sync.Mutex
 	drift   map[string]string
 	recorded map[string][]string // parameter and local names per function, in declaration order, when the contracts were written (/verif/locals.json)
+	rtWritten map[*ssa.Global]string // package-level variables some function writes at run time (lazily computed)
 	aidDrift map[string]bool     // drift entries that concern unnamed loop invariants (proof aids) only
 	aliased  map[string]string   // functions in which a contract identifier was re-bound to a renamed parameter / local
 }
@@ -51,6 +52,14 @@ func declaredNames(fn *ssa.Function) []string {
 	for _, a := range fn.Locals {
 		if a.Comment != "" {
 			out = append(out, a.Comment)
+		}
+	}
+	// variables whose address escapes live on the heap: they are Alloc instructions in the body
+	for _, b := range fn.Blocks {
+		for _, in := range b.Instrs {
+			if a, ok := in.(*ssa.Alloc); ok && a.Heap && a.Comment != "" {
+				out = append(out, a.Comment)
+			}
 		}
 	}
 	return out
